@@ -968,6 +968,8 @@ def private_callees(ast, fn, depth=2):
                     nm = c["func"]["path"].split("::")[-1]
                 elif c.k == "mcall" and up(strip(c["recv"])) in ("self", "Self"):
                     nm = c["method"]
+                elif c.k == "path" and c.parent is not None and isinstance(c.parent, Node) and c.parent.k in ("mcall", "call") and c.pkey == "args":
+                    nm = c["path"].split("::")[-1]       # a function passed by name: `.map(wrap_in_parent_node)`
                 if nm is None:
                     continue
                 for g in ast.fns:
